@@ -25,14 +25,14 @@ Empty == <<>>                    \* empty function (dict contents are functions 
 
 (* ---------------- descriptor kinds and their token catalogues ---------------- *)
 ValidTok(kind) ==
-  CASE kind = "pos" -> {"f1_5", "i3", "npf2_5", "f4"}
+  CASE kind = "pos" -> {"f1_5", "i3", "npf2_5", "f4", "f4u"}                 \* f4u, a30u, q2degu: the next double after f4, a30, q2deg
     [] kind = "posn" -> {"i3", "f4", "i5"}
     [] kind = "pix" -> {"pA", "pB", "pAc", "pAf"} \cup ExtraPix
     [] kind = "pix1d" -> {"parr3", "parr4"}
     [] kind = "sky" -> {"sA", "sB"}
     [] kind = "sky1d" -> {"sarr3", "sarr4"}
-    [] kind = "ang" -> {"a0", "a30", "arad", "aAngle", "aneg", "a30am"}
-    [] kind = "posang" -> {"q1as", "q3am", "q2deg", "q180as"}
+    [] kind = "ang" -> {"a0", "a30", "arad", "aAngle", "aneg", "a30am", "a30u"}
+    [] kind = "posang" -> {"q1as", "q3am", "q2deg", "q180as", "q2degu"}
     [] kind = "regpix" -> {"regP1", "regP2"}
     [] kind = "regsky" -> {"regS1", "regS2"}
     [] kind = "text" -> {"tHello", "tEmpty"}
@@ -55,7 +55,7 @@ ValidValue(kind, tok) == tok \in ValidTok(kind)
 
 (* numeric order of size tokens, for the annulus inner < outer constraint *)
 Num(tok) == CASE tok = "f1_5" -> 15 [] tok = "npf2_5" -> 25 [] tok = "i3" -> 30 [] tok = "f4" -> 40
-              [] tok = "q1as" -> 1 [] tok = "q3am" -> 180 [] tok = "q180as" -> 180 [] tok = "q2deg" -> 7200 [] OTHER -> 0
+              [] tok = "q1as" -> 1 [] tok = "q3am" -> 180 [] tok = "q180as" -> 180 [] tok = "q2deg" -> 7200 [] tok = "q2degu" -> 7201 [] tok = "f4u" -> 41 [] OTHER -> 0
 
 (* tokens that denote the same value: angular quantities differing only by unit, and pixel      *)
 (* positions within the documented relative tolerance 1e-5 (pAc = pA + 1e-7; pAf = pA + 1e-3)   *)
